@@ -34,6 +34,8 @@ def check(run):
     from .common import shared_rule
     from .c06 import outfile as _outfile
     shared_rule(run, _outfile, (run, p), 'C06-OUTFILE', 'C17-OUTFILE', ' (tdda detect run again on clean data leaves no file from the earlier run)')
+    from .c06 import aligned as _aligned
+    shared_rule(run, _aligned, (run, p), 'C06-ALIGNED', 'C17-ALIGNED', ' (the rows and row numbers tdda detect writes are those the library flags)')
     from .common import observed_rule
     calc = p.cls('PandasConstraintCalculator')
     n = observed_rule(run, 'C17-OBSERVED', p, list(calc.methods.values()),
